@@ -41,6 +41,24 @@ Theorem C19_spec_refuted :
     xeq (height (leaf_spec_size st av (mkSize (Fin 0) (Fin 0)))) (Fin 10).
 Proof. exists (w_both DFlex), measure_zero, max_content2. exact spec_ratio_witness. Qed.
 
+(* ---- with an aspect ratio, where the property is explicit and the code agrees: a style size definite on exactly one
+   axis (percentages resolved) is transferred to the other axis -- border-box, no min/max, style size not below
+   padding + border *)
+Theorem C19_ratio_transfer : forall (st : Style XQ) (measure : MeasureFn XQ) (av : Size (AvailableSpace XQ)) r lay calls,
+  fin_style st -> size_all fin_avail av -> display st <> DNone ->
+  aspect_ratio st = Some (Fin r) -> 0 < r -> box_sizing st = BorderBox ->
+  min_size st = mkSize Auto Auto -> max_size st = mkSize Auto Auto ->
+  root_leaf st measure av = Some (lay, calls) ->
+  (forall w, width (size_maybe_resolve_dim (size st) (sp_basis av)) = Some (Fin w) ->
+             height (size_maybe_resolve_dim (size st) (sp_basis av)) = None ->
+             x_leb (width (sp_pb st av)) (Fin w) = true ->
+             size_rel xeq (l_size lay) (mkSize (Fin w) (x_max (Fin (w / r)) (height (sp_pb st av))))) /\
+  (forall h, width (size_maybe_resolve_dim (size st) (sp_basis av)) = None ->
+             height (size_maybe_resolve_dim (size st) (sp_basis av)) = Some (Fin h) ->
+             x_leb (width (sp_pb st av)) (Fin (h * r)) = true ->
+             size_rel xeq (l_size lay) (mkSize (Fin (h * r)) (x_max (Fin h) (height (sp_pb st av))))).
+Proof. exact root_ratio_transfer. Qed.
+
 (* ---- never below padding + border, per axis: every box-generating style (aspect ratio included), every measure
    function (no finiteness assumption: NaN and infinite measurements included) *)
 Theorem C19_floor : forall (st : Style XQ) (measure : MeasureFn XQ) (av : Size (AvailableSpace XQ)) lay calls,
@@ -206,6 +224,7 @@ Proof. exact example_result. Qed.
 
 Print Assumptions C19_spec_partial.
 Print Assumptions C19_spec_refuted.
+Print Assumptions C19_ratio_transfer.
 Print Assumptions C19_floor.
 Print Assumptions C19_floor_leaf.
 Print Assumptions C19_clamped_partial.
